@@ -235,6 +235,13 @@ def main():
             w = tuple('SEMI' if t == 'AUTOSEMI' else t for t in w)
             if w and len(w) <= 14 and gx.lr_run(Tb, list(w)) is not None:
                 structs.append(w)
+    # get / set as ordinary names and as accessor introducers (contextual tokens: the lexer decides by looking ahead over layout)
+    sp = dict(sp, ID_GET='get', ID_SET='set')
+    structs += [('ID', 'EQ', 'LBRACE', 'ID_GET', 'COLON', 'NUMBER', 'COMMA', 'ID_SET', 'COLON', 'NUMBER', 'RBRACE', 'SEMI'),
+                ('ID', 'EQ', 'LBRACE', 'ID_GET', 'ID', 'LPAREN', 'RPAREN', 'LBRACE', 'RBRACE', 'COMMA', 'ID_SET', 'ID', 'LPAREN', 'ID', 'RPAREN', 'LBRACE', 'RBRACE', 'RBRACE', 'SEMI'),
+                ('ID_GET', 'EQ', 'ID_SET', 'SEMI'), ('ID', 'PERIOD', 'ID_GET', 'LPAREN', 'ID_SET', 'RPAREN', 'SEMI'),
+                ('ID', 'EQ', 'LBRACE', 'ID_GET', 'ID_GET', 'LPAREN', 'RPAREN', 'LBRACE', 'RBRACE', 'RBRACE', 'SEMI'),
+                ('ID', 'EQ', 'ID_GET', 'PLUS', 'ID_SET', 'SEMI')]
     structs = list(dict.fromkeys(structs))
     _TL['sp'] = sp
     chunks = [structs[i::64] for i in range(64)]
